@@ -1,7 +1,7 @@
 """C15 — single-objective benchmarks: total on their box, optimum where and as documented.
 
-Correspondence (regime R3): every `evaluate` of the 21 families of artap/benchmark_functions.py and
-artap/benchmark_robust.py against the Float interpretation of the one polymorphic definition in
+Correspondence (regime R3): every `evaluate` of the 23 single-objective families of artap/benchmark_functions.py
+and artap/benchmark_robust.py (the 21 of DESIGN.md plus Synthetic5D/Synthetic10D) against the Float interpretation of the one polymorphic definition in
 lean/ArtapModel/Model/Bench.lean (the theorems of Props/C15.lean are about its real interpretation);
 the declared box, `global_optimum`, `global_optimum_coords` and the optimisation direction are compared
 with the model's constants for every dimension tested.  Relation R: one finite real returned, for Python
@@ -9,7 +9,7 @@ floats and for numpy scalars, |impl - model| <= 1e-9 (1 + |model|).
 
 Property predicate P, evaluated on the implementation's own outputs: value at the documented coordinates
 within 1e-3 of the documented optimum; no explored point better than the optimum by more than 1e-3.
-For the seven families whose numeric optimum is not proved (TESTED_ONLY) P is additionally driven by a
+For the nine families whose numeric optimum is not proved (TESTED_ONLY) P is additionally driven by a
 dense search on the implementation -- that part is a test, and is labelled as such in the evidence.
 """
 import math
@@ -30,9 +30,11 @@ FAMILIES = {
     "XinSheYang": ("bf", VAR_DIMS, None), "XinSheYang2": ("bf", VAR_DIMS, None),
     "XinSheYang3": ("bf", VAR_DIMS, None), "Booth": ("bf", [2], 2), "GramacyLee": ("bf", [1], 1),
     "AlpineFunction": ("bf", VAR_DIMS, None), "Synthetic1D": ("br", [1], 1), "Synthetic2D": ("br", [2], 2),
+    "Synthetic5D": ("br", [5], 5), "Synthetic10D": ("br", [10], 10),     # not in DESIGN's 21; in scope of the statement
 }
 # numeric optimum not proved in Lean: dense search on the implementation instead (a test)
-TESTED_ONLY = ["Schwefel", "Michaelwicz", "Schubert", "GramacyLee", "SixHump", "Synthetic1D", "Synthetic2D"]
+TESTED_ONLY = ["Schwefel", "Michaelwicz", "Schubert", "GramacyLee", "SixHump", "Synthetic1D", "Synthetic2D",
+               "Synthetic5D", "Synthetic10D"]
 SEPARABLE = ["Schwefel", "Michaelwicz"]     # sum of one-dimensional terms: coordinate-wise line search is global
 MICHALEWICZ_REJECTED = [1, 3, 4, 6, 30]     # the constructor must raise ValueError here (model: optimum = none)
 
@@ -362,13 +364,23 @@ def dense_search(ctx, name, n, meta, kind="float"):
         cells.sort(key=lambda c: c[0])
         for fv, y in cells[:8 if q else 40]:
             starts.append((y, fv))
-    else:                                       # separable sums: cyclic global line searches
+    elif name in SEPARABLE:                     # separable sums: cyclic global line searches are global
         grid = (600 if n <= 10 else 250) if q else 20000
         x = [rng.uniform(lo, hi) for lo, hi in box]
         for _cycle in range(1 if (q and n > 10) else 2):
             for k in range(n):
                 x[k], fx = line_search(f, x, k, box[k][0], box[k][1], grid, rng, top=4)
         starts.append((x, f(x)))
+    else:                                       # sums of Gaussians in 5/10 dimensions: multi-start line searches (heuristic)
+        grid = 120 if q else 2000
+        seeds = [[rng.uniform(lo, hi) for lo, hi in box] for _ in range(3 if q else 40)]
+        rob = getattr(p, "robust_optimum_coords", None)
+        if rob is not None and len(rob) == n:
+            seeds.append([clip(float(t), lo, hi) for t, (lo, hi) in zip(rob, box)])
+        for x in seeds:
+            for k in range(n):
+                x[k], fx = line_search(f, x, k, box[k][0], box[k][1], grid, rng, top=2)
+            starts.append((x, f(x)))
     if meta["coords"] is not None:
         starts.append((list(meta["coords"]), f(list(meta["coords"]))))
     best = None
